@@ -244,6 +244,21 @@ func c14(c *Ctx) {
 			args = append([]interface{}{context.Background()}, args...)
 			argNames = append([]interface{}{"other:ctxvalue"}, argNames...)
 		}
+		// what mg.F sees of an argument is its dynamic type: a value taken from the interface{}-typed pool entry is a string
+		for i, a := range args {
+			if a == nil {
+				continue
+			}
+			if _, isCtx := a.(context.Context); isCtx {
+				continue
+			}
+			for _, d := range tyPool {
+				if d.t == reflect.TypeOf(a) {
+					argNames[i] = d.name
+					break
+				}
+			}
+		}
 		if argNames == nil {
 			argNames = []interface{}{}
 		}
